@@ -27,7 +27,7 @@ def gen_cases(ctx):
             pr = (p if k >= 1 else 0, q if k >= 2 else 0, r.choice([1, 2, p if p <= 64 else 2]) if k >= 3 else 0,
                   r.choice([0.0, 2.0, -3.0, 1e300, float("nan")]) if ind in HAS_MULT else 0.0)
             ops = [new_op(0, ind, pr)]
-            feeds = feed(r, ind, n_feed, specials=0.25 if p <= 64 else 0.05)
+            feeds = feed(r, ind, n_feed, specials=0.25 if p <= 64 else 0.05, p=max(p, 1))
             extra = []
             for _ in range(r.randint(1, 4)):
                 extra.append(r.choice([("r", 0), ("s", 0), ("d", 0), ("c", 0, 1), ("c", 0, 0)]))
